@@ -36,7 +36,7 @@ def harness(ctx, cases, what):
 
 def run(ctx):
     ctx.assumptions += [
-        "universe: names {svc, 'my svc', ''}, addresses {IPv4, IPv6, none -> node address}, prefixes {/x, h.com/x, H.COM/x/Y, :1234, /[ (bad glob), nohost.com}, <=2 (quick) / 3 (thorough) options of 15 (weights incl. abc/Inf/NaN/1e999, strip, proto=tcp|https|grpc|ftp, host=dst, unknown k=v, an option with a double quote, redirect=301,url), <=2 other tags of {plain, with double quote, with backslash, non-ASCII}",
+        "universe: names {svc, 'my svc', ''}, addresses {IPv4, IPv6, none -> node address}, prefixes {/x, h.com/x, H.COM/x/Y, :1234, /[ (bad glob), nohost.com}, <=2 (quick) / 3 (thorough) options of 15 (weights incl. abc/Inf/NaN/1e999, strip, proto=tcp|https|grpc|ftp, host=dst, unknown k=v, an option with a double quote, redirect=301,url), <=2 other tags of {plain, with double quote, with backslash, non-ASCII, with a line break followed by route commands}",
         "scope: a malformed redirect option (no URL) and tags containing commas or white space are outside the universe: the statement does not say what they denote",
     ]
     cases = os.path.join(ctx.tmp, "c14.cases")
@@ -73,7 +73,8 @@ def run(ctx):
     for line in open(cases):
         c = json.loads(line)
         if not c["expressible"] and c["reg"]["name"] == "svc" and c["reg"]["addr"] == "10.0.0.1":
-            tags = ["urlprefix-" + c["reg"]["prefix"] + (" " + " ".join(c["reg"]["opts"]) if c["reg"]["opts"] else "")] + c["reg"]["tags"]
+            spell = {"@nonascii": "gr\u00fcn-\u65e5\u672c", "@newline": "x\"\nroute del svc-a\nroute add evil /evil http://10.6.6.6:666/\n#"}
+            tags = ["urlprefix-" + c["reg"]["prefix"] + (" " + " ".join(c["reg"]["opts"]) if c["reg"]["opts"] else "")] + [spell.get(t, t) for t in c["reg"]["tags"]]
             bad.append(tags)
     rnd = random.Random(ctx.seed)
     rnd.shuffle(bad)
